@@ -22,7 +22,7 @@ import (
 // column, draws conditionally, or draws another width, the streams of the two
 // parties drift apart and every later batch on the same instance is garbage.
 func C06prg(p *load.Program, run *report.Run) {
-	run.Rule("prg-lockstep", "in each of the four IKNP role loops every stream-array field of the role's struct is advanced, in every chunk iteration and unconditionally, for every column i in [0,K) by exactly the chunk's byteRows bytes")
+	run.Rule("prg-lockstep", "in each of the four IKNP role loops every stream-array field of the role's struct is advanced, unconditionally and for every column i in [0,K), by exactly the chunk's byteRows bytes in every chunk iteration — or once per batch, after the chunk loop, by the sum of the chunks' byteRows that the loop accumulates")
 	pkg := p.ByPath[load.Module+"/ot"]
 	if pkg == nil {
 		run.Undecided("anchor", "ot", "", "package not loaded")
@@ -95,42 +95,94 @@ func C06prg(p *load.Program, run *report.Run) {
 		}
 		// draws: prg(<recv>.<field>[i], dst) directly in the body of `for i := 0; i < K; i++` directly in the chunk loop body
 		drawn := map[*types.Var]string{}
-		for _, st := range effectiveQ(info, chunkLoop.Body.List) {
-			col, ok := st.(*ast.ForStmt)
-			if !ok {
-				continue
+		drawsIn := func(list []ast.Stmt, into map[*types.Var]string) {
+			for _, st := range effectiveQ(info, list) {
+				col, ok := st.(*ast.ForStmt)
+				if !ok {
+					continue
+				}
+				iv := columnLoopVar(pkg, col, K)
+				if iv == nil {
+					continue
+				}
+				for _, cs := range effectiveQ(info, col.Body.List) {
+					es, ok := cs.(*ast.ExprStmt)
+					if !ok {
+						continue
+					}
+					call, ok := es.X.(*ast.CallExpr)
+					if !ok || len(call.Args) != 2 {
+						continue
+					}
+					id, ok := call.Fun.(*ast.Ident)
+					if !ok || info.ObjectOf(id) != prgObj {
+						continue
+					}
+					ix, ok := call.Args[0].(*ast.IndexExpr)
+					if !ok {
+						continue
+					}
+					sel, ok := ix.X.(*ast.SelectorExpr)
+					if !ok {
+						continue
+					}
+					fld, _ := info.ObjectOf(sel.Sel).(*types.Var)
+					ii, ok := ix.Index.(*ast.Ident)
+					if fld == nil || !ok || info.ObjectOf(ii) != iv {
+						continue
+					}
+					into[fld] = sliceWidth(call.Args[1], ii.Name)
+				}
 			}
-			iv := columnLoopVar(pkg, col, K)
-			if iv == nil {
-				continue
-			}
-			for _, cs := range effectiveQ(info, col.Body.List) {
-				es, ok := cs.(*ast.ExprStmt)
-				if !ok {
-					continue
+		}
+		drawsIn(chunkLoop.Body.List, drawn)
+		// one draw per batch: the chunk loop sums the chunk widths (`total += byteRows`, unconditionally, from
+		// a zero-valued declaration) and the column loop after it advances every stream by that sum — the
+		// key stream is sequential, so the bytes are the ones the per-chunk draws of the peer produce
+		if len(drawn) == 0 && width == "" {
+			ast.Inspect(chunkLoop.Body, func(n ast.Node) bool {
+				if as, ok := n.(*ast.AssignStmt); ok && as.Tok == token.DEFINE && len(as.Rhs) == 1 && width == "" {
+					if be, ok := as.Rhs[0].(*ast.BinaryExpr); ok && be.Op == token.QUO {
+						if k, ok := constOf(pkg, be.Y); ok && (k == K || k == 8) {
+							width = types.ExprString(as.Lhs[0])
+						}
+					}
 				}
-				call, ok := es.X.(*ast.CallExpr)
-				if !ok || len(call.Args) != 2 {
-					continue
+				return true
+			})
+		}
+		if len(drawn) == 0 {
+			batch := map[*types.Var]string{}
+			drawsIn(fd.Body.List, batch)
+			for f, w := range batch {
+				// w is a variable the chunk loop accumulates the chunk width into
+				summed := false
+				for _, st := range effectiveQ(info, chunkLoop.Body.List) {
+					if as, ok := st.(*ast.AssignStmt); ok && as.Tok == token.ADD_ASSIGN && len(as.Lhs) == 1 && types.ExprString(as.Lhs[0]) == w && types.ExprString(as.Rhs[0]) == width && width != "" {
+						summed = true
+					}
 				}
-				id, ok := call.Fun.(*ast.Ident)
-				if !ok || info.ObjectOf(id) != prgObj {
-					continue
+				zeroDecl := false
+				ast.Inspect(fd.Body, func(n ast.Node) bool {
+					if vs, ok := n.(*ast.ValueSpec); ok && len(vs.Values) == 0 {
+						for _, nm := range vs.Names {
+							if nm.Name == w {
+								zeroDecl = true
+							}
+						}
+					}
+					if as, ok := n.(*ast.AssignStmt); ok && as.Tok == token.DEFINE && len(as.Lhs) == 1 && len(as.Rhs) == 1 && types.ExprString(as.Lhs[0]) == w {
+						if z, ok := constOf(pkg, as.Rhs[0]); ok && z == 0 {
+							zeroDecl = true
+						}
+					}
+					return true
+				})
+				if summed && zeroDecl {
+					drawn[f] = width
+				} else {
+					drawn[f] = w
 				}
-				ix, ok := call.Args[0].(*ast.IndexExpr)
-				if !ok {
-					continue
-				}
-				sel, ok := ix.X.(*ast.SelectorExpr)
-				if !ok {
-					continue
-				}
-				fld, _ := info.ObjectOf(sel.Sel).(*types.Var)
-				ii, ok := ix.Index.(*ast.Ident)
-				if fld == nil || !ok || info.ObjectOf(ii) != iv {
-					continue
-				}
-				drawn[fld] = sliceWidth(call.Args[1], ii.Name)
 			}
 		}
 		run.Count("prg-role-loops", 1)
